@@ -57,9 +57,20 @@ TOL = 1e-5
 KNOWN_KEY = "unequal-orders-ngram-without-backoff-record"
 ABORT_MSG = "Streams were not the same size during merging"
 
-SETTINGS = [  # (-S, --sort_block)
-    (None, None), ("40M", "1M"), ("4M", "64K"), ("1M", "4K"), ("1M", "256"), ("100M", "64"), ("64M", "8M"),
+# (-S, --sort_block); a bare number means KILObytes in kenlm's size options, so bytes need the 'b' suffix.
+# All of these satisfy S >= 4 * sort_block (the tool's own requirement, util/stream/sort.hh) and sort_block >= 64b
+# (the smallest round value at which every chain still holds one record of order <= 5): the tool must accept them.
+SETTINGS = [
+    (None, None), ("40M", "1M"), ("4M", "64K"), ("1M", "4K"), ("64M", "8M"), ("1M", "64b"),
+    ("256b", "64b"), ("512b", "128b"), ("1K", "128b"), ("1K", "256b"), ("2K", "512b"), ("4K", "1K"), ("64K", "1K"),
+    ("16K", "4K"),
 ]
+TINY_SETTINGS = [("256b", "64b"), ("512b", "128b"), ("1K", "128b"), ("1K", "256b"), ("2K", "512b"), ("4K", "1K"), ("1M", "64b")]
+# Settings the tool is entitled to refuse (S < 4 * sort_block): a clean exit 1 with the documented message is accepted
+# (and the same tuple must then succeed with default memory); a hang or abort is not.
+REJECT_SETTINGS = [("2K", "64K"), ("1K", "1K")]
+REJECT_MSG = "is too small for four buffers"
+REJECT_KEY = "config-rejection-deadlock"
 
 WEIGHT_CHOICES = {
     1: [[1.0], [1.0], [0.5], [2.0], [-1.0], [0.0], [1.25]],
@@ -75,10 +86,23 @@ def gen_case(rng, kind=None):
     """A case = list of (corpus text, order) + weights + settings.  Kinds:
     single | same-order | same-corpus-mixed | nested-mixed | diff-mixed"""
     kind = kind or rng.choice(["single", "same-order", "same-order", "same-corpus-mixed", "nested-mixed",
-                               "diff-mixed", "same-order"])
+                               "diff-mixed", "same-order", "disjoint", "disjoint"])
     n = 1 if kind == "single" else rng.choice([2, 2, 3])
     comps = []
-    if kind in ("single", "same-order", "diff-mixed"):
+    if kind == "disjoint":
+        # (nearly) disjoint vocabularies of different sizes: the union vocabulary is much larger than any component's,
+        # contexts (<s>, a hub word) with very many successors, smallest block sizes
+        n = rng.choice([3, 3, 2])
+        sizes = [rng.choice([4, 8, 12, 18, 26]) for _ in range(n)]
+        order = rng.choice([2, 3, 3, 4]) if sum(sizes) <= 36 else rng.choice([2, 3])
+        shared_word = rng.random() < 0.3
+        for i, sz in enumerate(sizes):
+            v = ["%s%d" % ("pqr"[i], j) for j in range(sz)] + (["hub"] if shared_word else [])
+            comps.append((G.gen_corpus_wide(rng, v, rng.choice([0, 4, 10]), rng.choice([3, 5])), order))
+        if rng.random() < 0.2 and order > 2:
+            t, o = comps[0]
+            comps[0] = (t, o - 1)          # the known mixed-order class on top
+    elif kind in ("single", "same-order", "diff-mixed"):
         base_order = rng.choice([2, 3, 3, 4, 5])
         shared = None
         for i in range(n):
@@ -125,7 +149,7 @@ def gen_case(rng, kind=None):
         weights = list(rng.choice(WEIGHT_CHOICES[n]))
         if rng.random() < 0.25:
             weights = [round(rng.uniform(-1.0, 2.0), 3) for _ in range(n)]
-    setting = rng.choice(SETTINGS)
+    setting = rng.choice(TINY_SETTINGS if (kind == "disjoint" or rng.random() < 0.3) else SETTINGS)
     return {"kind": kind, "comps": comps, "weights": weights, "setting": setting}
 
 
@@ -181,6 +205,7 @@ class CaseResult:
         self.detail = {}
         self.maxerr = 0.0
         self.no_input = False
+        self.known_key = KNOWN_KEY
 
 
 def build_models(case, lmplz, wd):
@@ -259,7 +284,8 @@ def run_case(ctx, case, bins, dexe, wd, cap_ctx):
     uv = uv_line.split(" ")
     m_stuck = sorted(tuple(s.split(" ")) for s in stuck_line.split("\t") if s)
     p_stuck = py_stuck(models)
-    r.detail = {"built": built, "orders": orders, "weights": case["weights"], "setting": case["setting"],
+    r.detail = {"union_vocab": len(uv), "vocab_ratio": len(uv) / float(max(len(m["vocab"]) for m in models)),
+                "built": built, "orders": orders, "weights": case["weights"], "setting": case["setting"],
                 "kind": case["kind"], "stuck_model": [" ".join(g) for g in m_stuck[:5]]}
     # stream model of pass 2 (sameCtx/extendCtx on the ContextOrder-sorted union) vs the functional model: the sorted
     # streams must have the grouped shape assumed by theorem pass2_stream_refines, every record must be consumed, one
@@ -287,9 +313,27 @@ def run_case(ctx, case, bins, dexe, wd, cap_ctx):
     S, sb = case["setting"]
     if S:
         cmd += ["-S", S, "--sort_block", sb]
-    rc, out, err = sh(cmd, timeout=90)
+    expect_reject = bool(case.get("expect_reject"))
+    rc, out, err = sh(cmd, timeout=15 if expect_reject else 90)
     r.detail["cmd"] = " ".join(cmd)
     r.detail["rc"] = rc
+    if expect_reject and rc != 0:
+        r.detail["stderr"] = err[-600:]
+        if rc == 1 and REJECT_MSG in err:
+            # clean, documented configuration exception: accepted; the tuple itself must work with default memory
+            r.detail["config_rejected"] = True
+            cmd = [c for c in cmd]
+            i = cmd.index("-S")
+            del cmd[i:i + 4]
+            rc, out, err = sh(cmd, timeout=90)
+            r.detail["rc_default_memory"] = rc
+        elif rc == "timeout":
+            r.status = "known"
+            r.known_key = REJECT_KEY
+            r.what = ("interpolate hangs instead of reporting the configuration error for -S %s --sort_block %s "
+                      "(S < 4 x sort_block): BadSortConfig is thrown in the main thread while pass-1 threads are blocked"
+                      % (S, sb))
+            return r
     if rc != 0:
         r.detail["stderr"] = err[-600:]
         unequal = len(set(orders)) > 1
@@ -444,13 +488,13 @@ def shrink_case(ctx, case, bins, dexe, wd, cap_ctx, status, budget=40):
 def case_json(case):
     return {"kind": case["kind"],
             "comps": [{"corpus": c[0], "order": c[1], "lmplz_extra": list(c[2]) if len(c) > 2 else []} for c in case["comps"]],
-            "weights": case["weights"], "setting": list(case["setting"])}
+            "weights": case["weights"], "setting": list(case["setting"]), "expect_reject": bool(case.get("expect_reject"))}
 
 
 def case_from_json(j):
     return {"kind": j["kind"],
             "comps": [(c["corpus"], c["order"]) + ((c["lmplz_extra"],) if c.get("lmplz_extra") else ()) for c in j["comps"]],
-            "weights": j["weights"], "setting": tuple(j["setting"])}
+            "weights": j["weights"], "setting": tuple(j["setting"]), "expect_reject": bool(j.get("expect_reject"))}
 
 
 def handle(ctx, case, r, bins, dexe, wd, cap_ctx):
@@ -460,7 +504,15 @@ def handle(ctx, case, r, bins, dexe, wd, cap_ctx):
     ctx.hist("lmplz", "+".join(sorted({(c[2][0] if len(c) > 2 else "default") for c in case["comps"]})))
     ctx.hist("models", len(orders))
     ctx.hist("orders", "-".join(str(o) for o in orders))
-    ctx.hist("setting", "%s/%s" % case["setting"])
+    ctx.hist("setting", "%s/%s" % tuple(case["setting"]))
+    ctx.hist("sort_block", str(case["setting"][1]))
+    if r.detail.get("vocab_ratio") is not None:
+        vr = r.detail["vocab_ratio"]
+        ctx.hist("union_vocab/max_component_vocab", "<1.2" if vr < 1.2 else "<1.6" if vr < 1.6 else "<2" if vr < 2 else
+                 "<2.5" if vr < 2.5 else ">=2.5")
+        ctx.hist("union_vocab_size", min(r.detail["union_vocab"] // 10 * 10, 100))
+    if r.detail.get("config_rejected"):
+        ctx.hist("config_rejected_cleanly", "%s/%s" % tuple(case["setting"]))
     ctx.hist("outcome", r.status)
     if r.status == "skip":
         log("  skipped case: " + r.what)
@@ -478,7 +530,7 @@ def handle(ctx, case, r, bins, dexe, wd, cap_ctx):
     replay = {"stream": "interpolate", "case": case_json(case), "detail": r.detail, "what": r.what}
     if r.status == "known":
         # exactly the listed input class: unequal orders AND abort with that message AND model-level predicate
-        if ctx.violation(r.what, replay, key=KNOWN_KEY):
+        if ctx.violation(r.what, replay, key=r.known_key):
             return True
         ctx.notes["known_finding_cases"] = ctx.notes.get("known_finding_cases", 0) + 1
         return False
@@ -641,10 +693,19 @@ def run(ctx):
     found = found_bse
     try:
         quick = ctx.tier == "quick"
-        n = 30 if quick else 300
+        n = 26 if quick else 300
         cap_ctx = 120 if quick else 400
         # fixed coverage first: every kind once, then random kinds
-        kinds = ["single", "same-order", "same-corpus-mixed", "nested-mixed", "diff-mixed", "same-order"]
+        kinds = ["single", "disjoint", "same-order", "same-corpus-mixed", "nested-mixed", "diff-mixed", "disjoint",
+                 "same-order", "disjoint"]
+        # settings the tool may refuse: must be refused cleanly (exit 1 + message), never by hanging or aborting
+        for st in REJECT_SETTINGS:
+            case = gen_case(ctx.rng, "disjoint")
+            case["comps"] = [(c[0], 3) for c in case["comps"]]
+            case["setting"] = st
+            case["expect_reject"] = True
+            r = run_case(ctx, case, bins, dexe, os.path.join(wd, "case"), cap_ctx)
+            found |= handle(ctx, case, r, bins, dexe, os.path.join(wd, "case"), cap_ctx)
         r = run_case(ctx, WITNESS_CASE, bins, dexe, os.path.join(wd, "case"), cap_ctx)
         found |= handle(ctx, WITNESS_CASE, r, bins, dexe, os.path.join(wd, "case"), cap_ctx)
         if r.status == "known":
